@@ -80,7 +80,7 @@ class Fn:
         self.spec_inserts += 1
         return self
 
-    def set_sig(self, rule, new, drop_self=False):
+    def set_sig(self, rule, new, drop_self=False, sliced=False):
         """R11: replace the generic header (type parameters / bounds / where clause) by its erased form.
         The parameter NAMES and their order must be unchanged; this is checked."""
         def names(sig):
@@ -106,6 +106,8 @@ class Fn:
             if re.search(r'\bself\b', self.body):
                 raise ExtractError(f'{self.qual}: body uses self, cannot drop the receiver')
             on = on[1:]
+        if sliced:
+            on = names(new)   # slice extraction (R13): locals bound by the dropped prefix become parameters; logged
         if on != names(new):
             raise ExtractError(f"signature of {self.qual} changed: parameters {names(old)} vs contract {names(new)}")
         self.rewrites.append((rule, old, ' '.join(new.split())))
@@ -307,6 +309,16 @@ class Fn:
         dropped = len(self.body) - keep
         self.body = self.body[:keep] + '\n' + tail + '\n}'
         self.rewrites.append(('R13', f'function body truncated after the statement following `{" ".join(anchor.split())}` ({dropped} chars dropped)', why))
+        return self
+
+    def drop_prefix_before(self, anchor, why):
+        """R13 slice extraction: keep the body FROM `anchor` on; the dropped prefix only binds the locals that the new signature takes as parameters"""
+        ms = _find_all(anchor, self.body)
+        if len(ms) != 1:
+            raise ExtractError(f"lost anchor in {self.qual}: drop_prefix_before `{anchor[:60]}` matched {len(ms)}x")
+        dropped = ms[0].start()
+        self.body = '{\n' + self.body[ms[0].start():]
+        self.rewrites.append(('R13', f'function body starts at `{" ".join(anchor.split())}` ({dropped} chars of prefix dropped)', why))
         return self
 
     def truncate_after(self, anchor, tail, why):
